@@ -179,7 +179,7 @@ def normalize_group(g, x):
     return x
 
 
-def generic_replay(run_concrete, oracle_terms, tfvar, var_names, tol=1e-6, index=None):
+def generic_replay(run_concrete, oracle_terms, tfvar, var_names, tol=1e-6, index=None, relative=False):
     """Build a replay closure: run the real code (no engine) on tensors filled from the solver model and compare
     with the numeric value of the independent oracle terms at the same point."""
     from symx.terms import evalf
@@ -197,7 +197,8 @@ def generic_replay(run_concrete, oracle_terms, tfvar, var_names, tol=1e-6, index
                 o = float(o)
             if o != o:
                 continue
-            d = abs(out[i] - o) / (1 + abs(o))
+            # relative=True: purely relative error (for positive multiplicative quantities such as scales, whose magnitude is arbitrary)
+            d = abs(out[i] - o) / ((abs(o) if abs(o) > 0 else 1.0) if relative else (1 + abs(o)))
             if out[i] != out[i]:
                 d = float('inf')
             if d > worst:
